@@ -303,3 +303,28 @@ m("sel-line-threshold", ["C11"], "src/score.rs",
 m("lbl-version-block", ["C15", "C03"], "src/default.rs",
   "            qr[n - 11 + i][j] = Module::version(value);", "            qr[n - 11 + i][j] = Module::format(value);",
   note="bottom-left version block labelled format")
+
+
+# ---------------------------------------------------------------- benign refactorings: the property still
+# holds, every listed check must stay silent (false-alarm probes)
+m("ok-svg-square-z", ["C12", "C13", "C15"], "src/convert/mod.rs",
+  "        format!(\"M{x},{y}h1v1h-1\")\n    }\n\n    pub(crate) fn circle", "        format!(\"M{x},{y}h1v1h-1z\")\n    }\n\n    pub(crate) fn circle",
+  benign=True, note="benign: square sub-paths closed with z")
+m("ok-hex-uppercase", ["C12", "C13", "C17"], "src/convert/mod.rs",
+  "    hex.push_str(&format!(\"{:02x}\", color[0]));", "    hex.push_str(&format!(\"{:02X}\", color[0]));",
+  benign=True, note="benign: red channel in upper-case hex")
+m("ok-rect-no-px", ["C12", "C13", "C18"], "src/convert/svg.rs",
+  "            r#\"<rect width=\"{0}px\" height=\"{0}px\" fill=\"{1}\"/>\"#,", "            r#\"<rect width=\"{0}\" height=\"{0}\" fill=\"{1}\"/>\"#,",
+  benign=True, note="benign: background rect without the px suffix")
+m("ok-score-scaled", ["C11"], "src/placement.rs",
+  "        let matrix_score = score::score(&copy, &copy_transpose);", "        let matrix_score = score::score(&copy, &copy_transpose) * 2 + 1;",
+  benign=True, note="benign: ranking by an order-equivalent quantity")
+m("ok-circle-leading-zero", ["C12", "C13"], "src/convert/mod.rs",
+  "        format!(\"M{},{y}.5a.5,.5 0 1,1 0,-.1\", x + 1)", "        format!(\"M{},{y}.5a0.5,0.5 0 1,1 0,-0.1\", x + 1)",
+  benign=True, note="benign: numbers written with a leading zero")
+m("ok-format-before-scoring", ["C11", "C08", "C04"], "src/placement.rs",
+  "        datamasking::mask(&mut copy, mask);\n        let matrix_score", "        datamasking::mask(&mut copy, mask);\n        default::create_matrix_format_info(&mut copy, quality, mask);\n        let matrix_score",
+  benign=True, note="benign: candidates carry their format information when they are scored (as ISO prescribes)")
+m("ok-svg-newlines", ["C12", "C18", "C17"], "src/convert/svg.rs",
+  "        out.push_str(&self.path(qr));\n        out.push_str(&self.image(n));", "        out.push('\\n');\n        out.push_str(&self.path(qr));\n        out.push('\\n');\n        out.push_str(&self.image(n));",
+  benign=True, note="benign: newlines between elements")
